@@ -152,6 +152,19 @@ Definition overlap_model (r : N) (l : reach) : rclass * list N * N :=
    it syncs again (sets r2) and is served at r2 *)
 Definition follow_model (r1 r2 : N) : list N * N := ([r1; r2], r2).
 
+(* taking over (leader.go OnStartedLeading): SetCurrentRevision(version of the lock) runs BEFORE the leader flag
+   is stored, so "leader flag => revision installed".  Phases of the node that wins the election: *)
+Inductive tk_phase := TkFollower | TkInstalling (* inside SetCurrentRevision(version), not yet stored *) | TkLeading.
+Definition tk_flag (p : tk_phase) : bool := match p with TkLeading => true | _ => false end.
+Definition tk_revision (p : tk_phase) (old version : N) : N := match p with TkLeading => version | _ => old end.
+Definition tk_role (p : tk_phase) : role := if tk_flag p then Leader else Follower.
+(* what a follower pointed at this node's /status gets for a List while the node is in phase p *)
+Definition tk_peer_read (p : tk_phase) (old version : N) : effects :=
+  match f_resp (roles_effects StatusHandler (tk_role p) false Unreachable) with
+  | RespOk => roles_effects ERangeList Follower false (ReachOk (tk_revision p old version))
+  | _ => roles_effects ERangeList Follower false Err400
+  end.
+
 (* the outcome vocabulary of DESIGN.md, derived from the effects *)
 Inductive outcome :=
 | RejectUnavailable | Forward | ApplyLocal | WatchLocal | ServeLocal | ServeLocalAt (rev : N) | Error | Stub | Nothing.
